@@ -73,6 +73,11 @@ pub struct Case {
     /// Bytes removed from the end of the stream (fewer than the last PDU has).
     pub trunc: u8,
     pub sched: Vec<Ev>,
+    /// Capacity of the queue towards the client in the scheduled run (0 =
+    /// unbounded): with a small queue the server's writes are short and it
+    /// parks until the harness drains the queue (back-pressure).
+    #[serde(default)]
+    pub out_cap: u16,
 }
 
 //------------ building -----------------------------------------------------------
@@ -131,17 +136,38 @@ struct Exec {
     consumed_at_notify: Vec<u64>,
 }
 
-fn exec(spec: &SrcSpec, bytes: &[u8], sched: &[Ev]) -> Result<Exec, Fail> {
+fn exec(spec: &SrcSpec, bytes: &[u8], sched: &[Ev], out_cap: u16) -> Result<Exec, Fail> {
     let src = build_source(spec);
     let r: Result<Exec, String> = rtrsim::block_on(false, async move {
-        let (server_end, client_end, ctl): (_, _, MemCtl) = rtrsim::mem_pair(usize::MAX, usize::MAX);
+        let cap = if out_cap == 0 { usize::MAX } else { out_cap as usize };
+        let (server_end, client_end, ctl): (_, _, MemCtl) = rtrsim::mem_pair(usize::MAX, cap);
+        let mut out: Vec<u8> = Vec::new();
+        // settle, and while the server is parked on the full queue towards the
+        // client, drain the queue and let it continue
+        macro_rules! settle_drain {
+            () => {{
+                let mut rounds = 0u32;
+                loop {
+                    rtrsim::settle(&ctl, SETTLE_TURNS).await?;
+                    let parked = ctl.server_write_parked();
+                    out.extend(ctl.take_output());
+                    if !parked {
+                        break;
+                    }
+                    rounds += 1;
+                    if rounds > 2_000_000 {
+                        return Err("server still blocked on its output after 2,000,000 drains".to_string());
+                    }
+                }
+            }};
+        }
         let mut notify = NotifySender::new();
         let listener = futures_util::stream::iter(vec![Ok::<_, io::Error>(server_end)]);
         Server::new(listener, notify.clone(), src)
             .run()
             .await
             .map_err(|e| format!("Server::run failed: {}", e))?;
-        rtrsim::settle(&ctl, SETTLE_TURNS).await?;
+        settle_drain!();
         let mut pos = 0usize;
         let mut notify_events = 0;
         let mut consumed_at_notify = Vec::new();
@@ -158,18 +184,18 @@ fn exec(spec: &SrcSpec, bytes: &[u8], sched: &[Ev]) -> Result<Exec, Fail> {
                     notify.notify();
                 }
                 Ev::Settle => {
-                    rtrsim::settle(&ctl, SETTLE_TURNS).await?;
+                    settle_drain!();
                 }
             }
         }
         ctl.feed(&bytes[pos..]);
-        rtrsim::settle(&ctl, SETTLE_TURNS).await?;
+        settle_drain!();
         ctl.close_to_server();
-        rtrsim::settle(&ctl, SETTLE_TURNS).await?;
+        settle_drain!();
         if !ctl.server_gone() {
             return Err("connection task still alive after end of stream".into());
         }
-        let out = ctl.take_output();
+        out.extend(ctl.take_output());
         drop(client_end);
         Ok(Exec { out, notify_events, reads: ctl.server_reads(), consumed_at_notify })
     });
@@ -337,7 +363,7 @@ fn run_case(c: &Case, obs: &mut Obs) -> CheckResult {
     }
 
     // reference schedule
-    let reference = exec(&c.src, &bytes, &[])?;
+    let reference = exec(&c.src, &bytes, &[], 0)?;
     let ref_pdus = rtrsim::parse_pdus(&reference.out)
         .map_err(|e| Fail::new(format!("reference output does not parse into PDUs: {} (bytes {:02x?})", e, reference.out)))?;
     ensure!(!ref_pdus.iter().any(|p| p.typ == 0), "Serial Notify without a notification in the reference run");
@@ -346,7 +372,8 @@ fn run_case(c: &Case, obs: &mut Obs) -> CheckResult {
     obs.label_if(!c.src.ready, "not-ready");
 
     // generated schedule
-    let run = exec(&c.src, &bytes, &c.sched)?;
+    let run = exec(&c.src, &bytes, &c.sched, c.out_cap)?;
+    obs.label_if(c.out_cap != 0, "back-pressure");
     // classification of the schedule
     let mut fed = 0usize;
     let mut inside = false;
@@ -477,9 +504,10 @@ fn case_strategy(_: Tier) -> BoxedStrategy<Case> {
                 prop::collection::vec(q_strategy(base), 1..=8),
                 prop_oneof![9 => Just(0u8), 1 => 1u8..12],
                 sched_strategy(),
+                prop_oneof![6 => Just(0u16), 2 => 1u16..=12, 2 => 13u16..=200],
             )
         })
-        .prop_map(|(src, pdus, trunc, sched)| Case { src, pdus, trunc, sched })
+        .prop_map(|(src, pdus, trunc, sched, out_cap)| Case { src, pdus, trunc, sched, out_cap })
         .boxed()
 }
 
@@ -562,7 +590,7 @@ fn make_split(_: Tier, _: u64, mut idx: u64) -> Case {
             4 => vec![Ev::Chunk(s), Ev::Settle, Ev::Notify],
             _ => vec![Ev::Chunk(s), Ev::Settle, Ev::Chunk(u16::MAX), Ev::Settle, Ev::Notify, Ev::Settle],
         };
-        return Case { src: enum_src(ready), pdus: vec![streams[i].clone()], trunc: 0, sched };
+        return Case { src: enum_src(ready), pdus: vec![streams[i].clone()], trunc: 0, sched, out_cap: 0 };
     }
     unreachable!("index out of range")
 }
